@@ -4649,7 +4649,7 @@ class NameCheckVisitor(node_visitor.ReplacingNodeVisitor):
                         self._show_error_if_checking(
                             node,
                             "ExceptionGroup cannot be used as the type in an"
-                            f" except* clause: {subval.val!r}",
+                            f" except* clause: {safe_repr(subval.val)}",
                             error_code=ErrorCode.bad_except_handler,
                         )
                     is_exception = issubclass(subval.val, Exception)
@@ -4657,7 +4657,7 @@ class NameCheckVisitor(node_visitor.ReplacingNodeVisitor):
                 else:
                     self._show_error_if_checking(
                         node,
-                        f"{subval!r} is not an exception class",
+                        f"{subval} is not an exception class",
                         error_code=ErrorCode.bad_except_handler,
                     )
                     possible_types.append((False, TypedValue(BaseException)))
